@@ -125,7 +125,7 @@ def r2(ctx):
         ck = Idx(clusters, (k,))
         members = Attr(ck, "member_points")
         for mu in _cluster_means(ck, data).values():
-            okD = okD or (SD.binders[1][1] == Range(0, tm.length(members)) and _only_skips_empty(SD.guard, ck)
+            okD = okD or (SD.binders[1][1] in (Range(0, tm.length(members)), Range(0, Attr(ck, "size"))) and _only_skips_empty(SD.guard, ck)
                           and SD.body == _outer(tm.add(Idx(data, (Idx(members, (p,)),)), tm.neg(mu))))
     ctx.check(okD, fi, "Wd = sum_k sum_{p in cluster k} (x_p - mu_k)(x_p - mu_k)^T", role="within",
               expected="SUM_k SUM_{p in members_k} outer(x_p - mu_k)", found=str(SD)[:220])
